@@ -138,8 +138,21 @@ class Ctx:
         with open(os.path.join(VERIF, "evidence", f"{self.id}.json"), "w") as f:
             json.dump(ev, f, indent=1)
         shutil.rmtree(self.workdir, ignore_errors=True)
+        # one KNOWN-FINDING line per LISTED open finding: those re-observed by this run (ctx.known) and
+        # those listed but not hit by this run's sample (their witnesses live in corpus/ and run first)
+        printed = set()
         for k in self.known:
             print(f"KNOWN-FINDING: property={self.id} {k}")
+            printed.add(k)
+        try:
+            listed = self.known_findings()
+        except Exception:
+            listed = []
+        for k in listed:
+            sig = k.get("signature", "")
+            if any(f"[signature={sig}]" in line or f"signature={sig}" in line for line in printed):
+                continue
+            print(f"KNOWN-FINDING: property={self.id} {k.get('what', '')} [signature={sig}] (listed; not re-observed in this run's sample)")
         for path, suffix in self.violations:
             print(f"VIOLATION property={self.id} replay={path}{suffix}")
         return 1 if self.violations else 0
